@@ -80,12 +80,15 @@ def check(tier: str, seed: int) -> int:
         for w in ws:
             if w and w[-1] == "call" and d0["layers"]:
                 w = []
-            text = render_doc(dict(d0, wrap=w))
-            if has_error(text):
-                continue
-            meta.append({"law": law, "text": text, "A": A, "B": B})
-            jobs.append({"text": text, "ops": A})
-            jobs.append({"text": text, "ops": B})
+            texts = [render_doc(dict(d0, wrap=w))]
+            if not w and len(d0["layers"]) >= 2 and any(o["sel"] > 0 for o in A + B):
+                texts.append(render_doc(dict(d0, wrap=w), in_comments=True))      # layer trivia: a comment after every `in'
+            for text in texts:
+                if has_error(text):
+                    continue
+                meta.append({"law": law, "text": text, "A": A, "B": B})
+                jobs.append({"text": text, "ops": A})
+                jobs.append({"text": text, "ops": B})
     outs = pmap("harness.impl", "run_history", jobs, chunk=150)
     tlc.WORK.mkdir(exist_ok=True)
     tmp = Path(tempfile.mkdtemp(prefix="laws-", dir=tlc.WORK))
